@@ -640,6 +640,13 @@ impl WmoParser {
         let movb_data = movb_chunk.read_data(reader)?;
         let mut visible_lists = Vec::with_capacity(offsets.len());
 
+        // The lists of this layout follow one another, so together they hold at most one
+        // value per u16 of MOVB. Offsets that point into each other's lists would repeat
+        // the same data once per offset (entries x bytes of work and memory): such a
+        // table is not in this layout and is not expanded
+        let max_values = movb_data.len() / 2;
+        let mut total_values = 0usize;
+
         for &offset in &offsets {
             let mut index = offset as usize;
             let mut list = Vec::new();
@@ -652,6 +659,16 @@ impl WmoParser {
                     // End of list marker
                     break;
                 }
+
+                if total_values == max_values {
+                    warn!(
+                        "MOVV offsets describe overlapping visible block lists ({} offsets into {} bytes of MOVB), ignoring them",
+                        offsets.len(),
+                        movb_data.len()
+                    );
+                    return Ok(Vec::new());
+                }
+                total_values += 1;
 
                 list.push(value);
                 index += 2;
